@@ -204,6 +204,14 @@ impl Assignment {
     }
 }
 
+#[cfg(crustabri_verif)]
+impl Assignment {
+    /// Verification hook: lets a `SatSolver` implemented outside this crate build a model.
+    pub fn verif_new(assignment: Vec<Option<bool>>) -> Self {
+        Self(assignment)
+    }
+}
+
 pub(crate) struct AssignmentIterator<'a> {
     assignment: &'a Assignment,
     next: usize,
